@@ -20,19 +20,47 @@ package ethnode
 
 // Node URI parsing: pure functions of the string; the parsed object is never mutated.
 //@ func ParseNodeURI
+//@ property C15
+//@ safety on
 //@ opaque
 
 //@ func (*NodeURI).ID
+//@ property C15
+//@ safety on
+//@ requires u != nil
 //@ opaque byref
 
+//@ func (*NodeURI).hasRemote
+//@ property C15
+//@ safety on
+//@ requires u != nil
+//@ opaque byref
+
+// a node URI without a dialable remote (no address, localhost, loopback, unspecified) has the empty remote host:
+// that is what makes strict peering compare "same host" for such peers
 //@ func (*NodeURI).RemoteHost
+//@ property C15 C18
+//@ safety on
+//@ requires u != nil
+//@ ensures [non-remote-is-empty] {C18} !uf("ethnode.(*NodeURI).hasRemote", 0, u) ==> result == ""
 //@ opaque byref
 
 //@ func (*PeerInfo).EnodeURI
+//@ property C15
+//@ safety on
+//@ requires p != nil
 //@ opaque
 
+// the id is either the reported ID field or the 128 characters after "enode://": no other slicing of attacker-controlled strings
 //@ func (*PeerInfo).EnodeID
+//@ property C15
+//@ safety on
+//@ requires p != nil
 //@ opaque
+
+//@ func (Peers).IDs
+//@ property C15
+//@ safety on
 
 // ---- the node as seen by the agent: ghost logs of the peer operations performed on it ----
 // one append-only log per operation: rm = RemoveTrustedPeer, dc = DisconnectPeer, cn = ConnectPeer, tr = AddTrustedPeer
